@@ -106,7 +106,7 @@ def gen_world(rng, prop):
         else:
             base, amp = 1.0, rng.choice([0.0, 0.1, 0.3])
         f = {"profile": prof, "base": fhex(base), "amp": fhex(amp), "k": rng.choice([1, 1, 2]),
-             "u0": fhex(rng.choice([0.0, 0.3, -0.5])),
+             "u0": fhex(wchoice(rng, [(0.0, 10), (0.3, 35), (-0.5, 35), (0.1, 20)])),
              "t0": fhex(t0 if (i == 0 or rng.random() < 0.7) else rng.choice([0.0, 1.0, 0.375])),
              "it": wchoice(rng, [(-1, 80), (0, 8), (5, 12)])}
         fields.append(f)
@@ -120,10 +120,15 @@ def gen_world(rng, prop):
         else:
             ms = [wchoice(rng, [(1.0, 30), (0.5, 12), (2.0, 8), (1.5, 10), (0.75, 10), (1.25, 8),
                                 (rng.uniform(0.5, 1.5), 15), (2.0 ** -6, 4), (0.1, 3)]) for _ in range(nseg)]
+        if ms[-1] < 0.5:
+            ms[-1] = 1.0  # the last segment lasts forever: keep runs bounded
         bp = []
         x = t0
-        for _ in range(nseg - 1):
-            x += H * rng.choice([1, 2, 3, 4, 0.5, 2.5]) * rng.choice([0.5, 1.0])
+        for j in range(nseg - 1):
+            if ms[j] < 0.25:
+                x += H * ms[j] * rng.choice([1, 2, 3])  # tiny ticks only for a few steps
+            else:
+                x += H * rng.choice([1, 2, 3, 4, 0.5, 2.5]) * rng.choice([0.5, 1.0])
             bp.append(x)
         rows = []
         for _ in range(rng.choice([1, 1, 2, 3])):
